@@ -167,6 +167,10 @@ class Discharger:
             if isinstance(val, (ast.Tuple, ast.List)) and len(val.elts) == n:
                 return "display of matching arity"
             t = info.type_of(val)
+            if isinstance(val, ast.Name):
+                d = self.dominating_def(info, val.id, p)
+                if d is not None:
+                    t = info.type_of(d)
             ar = tuple_arities(t, ("notnone", u(val)) in facts)
             if ar == {n}:
                 return "value is a tuple of arity %d on every path" % n
@@ -199,6 +203,29 @@ class Discharger:
                     return "product of %d factors" % n
         return None
 
+    def dominating_def(self, info, name, stmt):
+        """the right-hand side of the nearest assignment `name = <expr>` that precedes stmt in its own block (walking
+        outwards); None if another binding of name could intervene"""
+        cur = stmt
+        while True:
+            p = info.pm.get(id(cur))
+            if p is None:
+                return None
+            for fld in ("body", "orelse", "finalbody"):
+                blk = getattr(p, fld, None)
+                if isinstance(blk, list) and cur in blk:
+                    i = blk.index(cur)
+                    for prev in reversed(blk[:i]):
+                        binds = [n for n in ast.walk(prev) if isinstance(n, ast.Name) and n.id == name and isinstance(n.ctx, ast.Store)]
+                        if binds:
+                            if isinstance(prev, ast.Assign) and len(prev.targets) == 1 and isinstance(prev.targets[0], ast.Name) \
+                                    and prev.targets[0].id == name:
+                                return prev.value
+                            return None
+            if isinstance(p, (ast.FunctionDef, ast.AsyncFunctionDef, ast.For, ast.While)):
+                return None
+            cur = p
+
     def _nested_unpack(self, info, s, facts, parent, tg):
         # ((a, b), c) = value / for (a, c), (b, m) in product(X.items(), Y.items())
         top = parent
@@ -211,6 +238,10 @@ class Discharger:
         from .tyinf import elem as elem_t
         if isinstance(p, ast.Assign):
             t = info.type_of(p.value)
+            if isinstance(p.value, ast.Name):
+                d = self.dominating_def(info, p.value.id, p)
+                if d is not None:
+                    t = info.type_of(d)
             if ("notnone", u(p.value)) in facts:
                 t = frozenset(a for a in t if a[0] != "none")
         elif isinstance(p, (ast.For, ast.comprehension)):
@@ -253,7 +284,7 @@ class Discharger:
     # ---- pops
     def d_pop(self, info, s, facts):
         n = s.node
-        if isinstance(n.func, ast.Attribute):
+        if isinstance(n.func, ast.Attribute) and not u(n.func).startswith("heapq."):
             recv = u(n.func.value)
             if n.args and ("in", u(n.args[0]), recv) in facts:
                 return "dominating membership test of the popped key"
